@@ -129,6 +129,11 @@ def storage_kinds():
                     cells[nm] = "processGlobal"
             elif isinstance(v, (ast.Dict, ast.List, ast.Set)):
                 cells[nm] = "processGlobal"
+    # a module-level name rebound from inside a function (`global x`) is a process-global cell too
+    for node in ast.walk(tree):
+        if isinstance(node, ast.Global):
+            for nm in node.names:
+                cells[nm] = "processGlobal"
     # which cell each accessor function touches
     users = {}
     for node in tree.body:
